@@ -49,8 +49,24 @@ def classify(obs, case) -> set[str]:
         cl.add("two_or_more_close_causes")
     if case.get("noise"):
         cl.add("noise")
-    if any("it" in ev for ev in case.get("events") or []):
+    if any("it" in ev or "ite" in ev for ev in case.get("events") or []):
         cl.add("iteration_injection")
     if len(obs.skipped) == len(case.get("events") or []) and obs.skipped:
         cl.add("all_events_skipped")
+    # a fault / close cause while at least one awaited operation is pending
+    open_ops = 0
+    for e in obs.trace:
+        k = e["kind"]
+        if k == "op_start":
+            open_ops += 1
+        elif k == "op_end":
+            open_ops -= 1
+        elif open_ops > 0 and (
+            k in ("eof", "reset", "data_received_raised", "fault_armed", "harness_cancel")
+            or (k == "deliver" and e["type"] == 5)
+            or (k == "tcp_end" and e["outcome"] != "ok")
+        ):
+            cl.add("fault_while_op_pending")
+    if obs.dead_writes:
+        cl.add("dead_write")
     return cl
